@@ -102,8 +102,9 @@ def run_dense(case, acc, order):
             wmi = np.asarray(m.wmi)
             only = case.get('only_op')
             opi = -1
-            for ncl in case['n_closest']:
+            for ncl, model_thr in [(n_, 0) for n_ in case['n_closest']] + [(case['n_closest'][0], 0.5)]:
                 m.n_closest_channels = ncl
+                m.amplitude_threshold = model_thr      # the model-wide default (public attribute)
                 for t in range(nt):
                     Tw = tr['templates_dense'][t].astype(np.float64)
                     for unwhiten in (True, False):
@@ -118,7 +119,7 @@ def run_dense(case, acc, order):
                                 opi += 1
                                 if only is not None and only != opi:
                                     continue
-                                t_eff = 0 if thr is None else thr
+                                t_eff = model_thr if thr is None else thr
                                 cut = t_eff * amp[peak]
                                 borderline = np.any((np.abs(amp - cut) < 1e-4 * amp[peak]) &
                                                     (np.abs(amp - cut) > 0)) if t_eff else False
@@ -152,7 +153,7 @@ def run_dense(case, acc, order):
                                     sig = '%s/dense/%s/%s/%s' % (PROP, attr, kind, feat)
                                     acc.violation(sig, core.make_record(
                                         PROP, 'dense', sig, case=dict(case, only_op=opi),
-                                        op={'template': t, 'n_closest': ncl, 'threshold': thr,
+                                        op={'template': t, 'n_closest': ncl, 'threshold': thr, 'model_threshold': model_thr,
                                             'unwhiten': unwhiten, 'explicit': explicit},
                                         expected=exp, observed=got), order * 10 ** 6 + opi)
                     # the convenience accessors agree with the record (default arguments)
